@@ -323,11 +323,9 @@ func doPruneCLI(c *core.Ctx, what string, k int, seed int64, n *core.N) {
 	emitRes(c, what, k, seed, n.Dump(), script, draws, "-", "ok", sel)
 }
 
+// allTipNamesLen: len(t.AllTipNames()) — since 9642e30 every tip, a tip root included
 func allTipNamesLen(n *core.N) int {
-	if len(n.Kids) == 1 {
-		return 1
-	}
-	return len(n.Leaves())
+	return len(n.TipNames())
 }
 
 func doShuffle(c *core.Ctx, cli bool, seed int64, n *core.N) {
@@ -404,6 +402,234 @@ func doRotAll(c *core.Ctx, seed int64, n *core.N) {
 	draws, sync, class := seeded(seed, script, func() { t.RotateInternalNodes() })
 	class, after := afterDump(t, class)
 	c.Emit("C20.rotall", strconv.FormatInt(seed, 10), n.Dump(), core.IntList(script), core.IntList(draws), sync, class, after)
+}
+
+var lenre = regexp.MustCompile(`a:(\d+)`)
+
+// doSampleCmd runs the whole `gotree sample` command on a file written in the given format.
+// Item i is the tree (a:<i+1>,b:1,c:1); (same taxa everywhere, so that Nexus accepts the file).
+// bad >= 0: a malformed tree stands at that position (newick only); n == 0: a file without trees.
+func doSampleCmd(c *core.Ctx, format string, k int, replace bool, seed int64, n, bad int, opened bool) {
+	var b strings.Builder
+	for i := 0; i < n; i++ {
+		if i == bad {
+			b.WriteString("(a:1,b:1;\n")
+		}
+		fmt.Fprintf(&b, "(a:%d,b:1,c:1);\n", i+1)
+	}
+	if bad >= n && bad >= 0 {
+		b.WriteString("(a:1,b:1;\n")
+	}
+	file := c.TmpFile(b.String())
+	sd := strconv.FormatInt(seed, 10)
+	emit := func(bounds, draws []int, class string, res []int) {
+		c.Emit("C20.samplecmd", format, itoa(k), b2s(replace), sd, itoa(n), itoa(bad), b2s(opened),
+			core.IntList(bounds), core.IntList(draws), class, core.IntList(res))
+	}
+	if format != "newick" {
+		r := c.RunCLI("", 20*time.Second, "reformat", format, "-i", file)
+		if r.Exit != 0 || r.Timeout {
+			return // no such input can be made: not a case
+		}
+		file = c.TmpFile(r.Stdout)
+	}
+	if !opened {
+		file = file + ".missing"
+	}
+	kk := k
+	if kk < 0 {
+		kk = 0
+	}
+	script := resScript(kk, n)
+	if replace {
+		script = replScript(kk, n)
+	}
+	draws, _ := replay(seed, script)
+	args := []string{"sample", "-i", file, "-n", itoa(k), "--seed", sd, "--format", format}
+	if replace {
+		args = append(args, "--replace")
+	}
+	r := c.RunCLI("", 20*time.Second, args...)
+	class := "ok"
+	switch {
+	case r.Timeout:
+		class = "timeout"
+	case r.Exit == 2 && strings.Contains(r.Stderr, "panic:"):
+		class = "panic"
+	case r.Exit != 0:
+		class = "err"
+	}
+	var res []int
+	for _, l := range strings.Split(r.Stdout, "\n") {
+		if m := lenre.FindStringSubmatch(l); m != nil {
+			v, _ := strconv.Atoi(m[1])
+			res = append(res, v-1)
+		}
+	}
+	emit(script, draws, class, res)
+}
+
+// doPruneCmd: the option priorities of `gotree prune` (-f > -c > --random > arguments).
+// tipfile / comp: nil = option absent; comp = the tips of the compared tree (written as a star tree).
+func doPruneCmd(c *core.Ctx, seed int64, n *core.N, random int, args, tipfile, comp []string) {
+	t, err := core.Build(n)
+	if err != nil {
+		panic(err)
+	}
+	names := n.TipNames()
+	var script []int
+	if tipfile == nil && comp == nil && random > 0 {
+		script = resScript(random, len(names))
+	}
+	draws, _ := replay(seed, script)
+	sd := strconv.FormatInt(seed, 10)
+	cl := []string{"prune", "-i", c.TmpFile(t.Newick() + "\n"), "--seed", sd, "--random", itoa(random)}
+	tf, cf := "-", "-"
+	if tipfile != nil {
+		cl = append(cl, "-f", c.TmpFile(strings.Join(tipfile, "\n")+"\n"))
+		tf = core.StrList(tipfile)
+	}
+	if comp != nil {
+		cl = append(cl, "-c", c.TmpFile("("+strings.Join(comp, ",")+");\n"))
+		cf = core.StrList(comp)
+	}
+	cl = append(cl, args...)
+	r := c.RunCLI("", 20*time.Second, cl...)
+	class := "ok"
+	var removed []string
+	if r.Exit != 0 || r.Timeout {
+		class = "exit" + itoa(r.Exit)
+	} else if out, perr := newick.NewParser(strings.NewReader(r.Stdout)).Parse(); perr != nil {
+		class = "unparsable"
+	} else {
+		left := map[string]bool{}
+		for _, nm := range tipNames(out) {
+			left[nm] = true
+		}
+		for _, nm := range names {
+			if !left[nm] {
+				removed = append(removed, nm)
+			}
+		}
+	}
+	c.Emit("C20.prunecmd", sd, n.Dump(), itoa(random), core.StrList(args), tf, cf, core.IntList(script), core.IntList(draws), class, core.StrList(removed))
+}
+
+// doUTreeCmd: `gotree generate uniformtree -n nb -l n [-r]`: nb trees from one seed.
+func doUTreeCmd(c *core.Ctx, seed int64, n int, rooted bool, nb int) {
+	var script []int
+	for i := 0; i < nb; i++ {
+		script = append(script, utreeScript(rooted, n)...)
+	}
+	draws, _ := replay(seed, script)
+	sd := strconv.FormatInt(seed, 10)
+	args := []string{"generate", "uniformtree", "-l", itoa(n), "-n", itoa(nb), "--seed", sd}
+	if rooted {
+		args = append(args, "-r")
+	}
+	r := c.RunCLI("", 20*time.Second, args...)
+	class := "ok"
+	var shapes []string
+	if r.Exit != 0 || r.Timeout {
+		class = "exit" + itoa(r.Exit)
+	} else {
+		for _, l := range strings.Split(strings.TrimRight(r.Stdout, "\n"), "\n") {
+			out, perr := newick.NewParser(strings.NewReader(l)).Parse()
+			if perr != nil {
+				class = "unparsable"
+				break
+			}
+			sh, cl := treeShape(out)
+			if cl != "ok" {
+				class = cl
+				break
+			}
+			shapes = append(shapes, sh)
+		}
+	}
+	var b strings.Builder
+	if class == "ok" {
+		for _, s := range shapes {
+			b.WriteString(s)
+			b.WriteByte('|')
+		}
+	}
+	c.Emit("C20.utreecmd", sd, itoa(n), b2s(rooted), itoa(nb), core.IntList(script), core.IntList(draws), class, b.String())
+}
+
+// doShufCLI: `gotree shuffletips` on a file holding several trees.
+func doShufCLI(c *core.Ctx, seed int64, ns []*core.N) {
+	var script []int
+	var file strings.Builder
+	for _, n := range ns {
+		t, err := core.Build(n)
+		if err != nil {
+			panic(err)
+		}
+		script = append(script, permScript(allTipNamesLen(n))...)
+		file.WriteString(t.Newick() + "\n")
+	}
+	draws, _ := replay(seed, script)
+	sd := strconv.FormatInt(seed, 10)
+	r := c.RunCLI("", 20*time.Second, "shuffletips", "-i", c.TmpFile(file.String()), "--seed", sd)
+	class := "ok"
+	var afters [][]string
+	if r.Exit != 0 || r.Timeout {
+		class = "exit" + itoa(r.Exit)
+	} else {
+		for _, l := range strings.Split(strings.TrimRight(r.Stdout, "\n"), "\n") {
+			out, perr := newick.NewParser(strings.NewReader(l)).Parse()
+			if perr != nil {
+				class = "unparsable"
+				break
+			}
+			afters = append(afters, tipNames(out))
+		}
+	}
+	if class != "ok" {
+		afters = nil
+	}
+	c.Emit("C20.shufcli", sd, core.Dumps(ns), core.IntList(script), core.IntList(draws), class, core.StrLists(afters))
+}
+
+// doRotCLI: `gotree rotate rand` on a file holding several trees (the draws run on from tree to tree).
+func doRotCLI(c *core.Ctx, seed int64, ns []*core.N) {
+	var script []int
+	var file strings.Builder
+	for _, n := range ns {
+		t, err := core.Build(n)
+		if err != nil {
+			panic(err)
+		}
+		script = append(script, rotAllScript(n, true)...)
+		file.WriteString(t.Newick() + "\n")
+	}
+	draws, _ := replay(seed, script)
+	sd := strconv.FormatInt(seed, 10)
+	r := c.RunCLI("", 20*time.Second, "rotate", "rand", "-i", c.TmpFile(file.String()), "--seed", sd)
+	class := "ok"
+	var afters []*core.N
+	if r.Exit != 0 || r.Timeout {
+		class = "exit" + itoa(r.Exit)
+	} else {
+		for _, l := range strings.Split(strings.TrimRight(r.Stdout, "\n"), "\n") {
+			out, perr := newick.NewParser(strings.NewReader(l)).Parse()
+			if perr != nil {
+				class = "unparsable"
+				break
+			}
+			a, wf := core.Alpha(out)
+			if !wf.OK() {
+				class = "malformed"
+				break
+			}
+			afters = append(afters, a)
+		}
+	}
+	if class != "ok" {
+		afters = nil
+	}
+	c.Emit("C20.rotcli", sd, core.Dumps(ns), core.IntList(script), core.IntList(draws), class, core.Dumps(afters))
 }
 
 func runUTree(n int, rooted bool) (string, string) {
@@ -544,6 +770,27 @@ func rootedCat(n int) *core.N {
 	return root
 }
 
+// tipRootedCat: a tree with n >= 3 tips whose root is itself a tip (one neighbour): t0 above a
+// rooted ladder over t1..t(n-1)
+func tipRootedCat(n int) *core.N {
+	sub := rootedCat(n - 1)
+	var ren func(x *core.N)
+	ren = func(x *core.N) {
+		if len(x.Kids) == 0 {
+			v, _ := strconv.Atoi(strings.TrimPrefix(x.Name, "t"))
+			x.Name = "t" + itoa(v+1)
+		}
+		for _, k := range x.Kids {
+			ren(k)
+		}
+	}
+	ren(sub)
+	sub.E = core.NewE()
+	root := &core.N{Name: "t0", Kids: []*core.N{sub}}
+	core.NumberEdges(root)
+	return root
+}
+
 func mkFib(c *core.Ctx, s *sampler, what string, k, n int) *fibKind {
 	fk := &fibKind{what: what, k: k, n: n, dump: "-"}
 	switch what {
@@ -568,10 +815,13 @@ func mkFib(c *core.Ctx, s *sampler, what string, k, n int) *fibKind {
 			}
 			return dots(out)
 		}
-	case "tips", "tipsR":
+	case "tips", "tipsR", "tipsT":
 		nn := caterpillarN(n)
 		if what == "tipsR" {
 			nn = rootedCat(n)
+		}
+		if what == "tipsT" {
+			nn = tipRootedCat(n)
 		}
 		fk.dump = nn.Dump()
 		fk.script = resScript(k, n)
@@ -588,10 +838,13 @@ func mkFib(c *core.Ctx, s *sampler, what string, k, n int) *fibKind {
 			}
 			return indexList(names, res)
 		}
-	case "shuffle", "shuffleR":
+	case "shuffle", "shuffleR", "shuffleT":
 		nn := caterpillarN(n)
 		if what == "shuffleR" {
 			nn = rootedCat(n)
+		}
+		if what == "shuffleT" {
+			nn = tipRootedCat(n)
 		}
 		fk.dump = nn.Dump()
 		fk.script = permScript(n)
@@ -706,27 +959,44 @@ func doFib(c *core.Ctx, s *sampler, what string, k, n int, seed0 int64) {
 	for _, b := range bounds {
 		size *= b
 	}
-	first := map[string]string{}
-	checked := map[string]bool{}
+	// cells of the draw space are numbered in mixed radix (first call most significant); one twin
+	// source is re-seeded for every candidate seed
+	first := make([]string, size)
+	seen := make([]bool, size)
+	checked := make([]bool, size)
+	nseen := 0
 	nonfunc, desync, tried := 0, 0, 0
 	limit := int(60*float64(size)*(math.Log(float64(size)+1)+2)) + 1000
-	for seed := seed0; len(first) < size && tried < limit; seed++ {
+	src := rand.NewSource(1)
+	tw := rand.New(src)
+	for seed := seed0; nseen < size && tried < limit; seed++ {
 		tried++
-		draws, next := replay(seed, fk.script)
-		key := dots(draws)
-		o, seen := first[key]
-		if seen && checked[key] {
+		tw.Seed(seed)
+		cell, bi := 0, 0
+		for _, b := range fk.script {
+			if b == 0 {
+				tw.Float64()
+			} else {
+				cell = cell*bounds[bi] + tw.Intn(b)
+				bi++
+			}
+		}
+		// every cell is run once; the first 20000 cells a second time on another seed (functional check)
+		if seen[cell] && (checked[cell] || cell >= 20000) {
 			continue
 		}
+		next := tw.Int63()
 		out := strings.NewReplacer(":", "_", ";", "_").Replace(fk.run(seed))
 		if rand.Int63() != next {
 			desync++
 		}
-		if !seen {
-			first[key] = out
+		if !seen[cell] {
+			seen[cell] = true
+			first[cell] = out
+			nseen++
 		} else {
-			checked[key] = true
-			if out != o {
+			checked[cell] = true
+			if out != first[cell] {
 				nonfunc++
 			}
 		}
@@ -735,11 +1005,10 @@ func doFib(c *core.Ctx, s *sampler, what string, k, n int, seed0 int64) {
 	var b strings.Builder
 	cur := make([]int, len(bounds))
 	for i := 0; i < size; i++ {
-		key := dots(cur)
-		if o, ok := first[key]; ok {
-			b.WriteString(key)
+		if seen[i] {
+			b.WriteString(dots(cur))
 			b.WriteByte(':')
-			b.WriteString(o)
+			b.WriteString(first[i])
 			b.WriteByte(';')
 		}
 		for j := len(cur) - 1; j >= 0; j-- {
@@ -783,7 +1052,7 @@ func doFreq(c *core.Ctx, s *sampler, what string, k, n int, seed0 int64, nseeds 
 	for i := 0; i < nseeds; i++ {
 		out := fk.run(seed0 + int64(i))
 		switch what {
-		case "sample", "tips", "tipsR":
+		case "sample", "tips", "tipsR", "tipsT":
 			f := strings.Split(out, ".")
 			v := make([]int, 0, len(f))
 			for _, x := range f {
@@ -822,7 +1091,14 @@ func treeOpts(g *core.G) core.TreeOpts {
 // genTree draws a tree; in some cases the root is made a tip ("tips at the root") or
 // parent positions other than 0 are used.
 func genTree(g *core.G) *core.N {
-	n, _ := g.Tree(treeOpts(g))
+	o := treeOpts(g)
+	if g.Chance(0.15) {
+		o.Singles = 0.2 // single-child inner nodes
+	}
+	if g.Chance(0.2) {
+		o.FunnyNames = true // numeric-looking tips, blanks, quotes, non-ASCII
+	}
+	n, _ := g.Tree(o)
 	if g.Chance(0.3) {
 		var rec func(x *core.N, root bool)
 		rec = func(x *core.N, root bool) {
@@ -835,7 +1111,7 @@ func genTree(g *core.G) *core.N {
 		}
 		rec(n, true)
 	}
-	if g.Chance(0.1) {
+	if g.Chance(0.2) {
 		n.E = core.NewE()
 		n.E.Len = 0.5
 		n = &core.N{Name: "rt", Kids: []*core.N{n}}
@@ -893,6 +1169,41 @@ func Replay(c *core.Ctx, lines []string) {
 			doRotate(c, num64(1), tr(2), intsOf(at(3)))
 		case "C20.rotall":
 			doRotAll(c, num64(1), tr(2))
+		case "C20.samplecmd":
+			doSampleCmd(c, at(1), num(2), at(3) == "1", num64(4), num(5), num(6), at(7) == "1")
+		case "C20.prunecmd":
+			lst := func(i int) []string {
+				if at(i) == "-" {
+					return nil
+				}
+				var out []string
+				for _, x := range strings.Split(strings.TrimSuffix(at(i), ","), ",") {
+					u, _ := core.Unescape(x)
+					out = append(out, u)
+				}
+				return out
+			}
+			var args []string
+			if at(4) != "" {
+				args = lst(4)
+			}
+			doPruneCmd(c, num64(1), tr(2), num(3), args, lst(5), lst(6))
+		case "C20.utreecmd":
+			doUTreeCmd(c, num64(1), num(2), at(3) == "1", num(4))
+		case "C20.shufcli", "C20.rotcli":
+			var ns []*core.N
+			for _, dd := range strings.Split(strings.TrimSuffix(at(2), "|"), "|") {
+				n, err := core.ParseDump(dd)
+				if err != nil {
+					panic(err)
+				}
+				ns = append(ns, n)
+			}
+			if f[0] == "C20.shufcli" {
+				doShufCLI(c, num64(1), ns)
+			} else {
+				doRotCLI(c, num64(1), ns)
+			}
 		case "C20.utree":
 			doUTree(c, at(1) == "cli", num64(2), num(3), at(4) == "1")
 		case "C20.fib":
@@ -923,10 +1234,12 @@ func fibInstances(quick bool) []inst {
 	for _, kn := range [][2]int{{1, 1}, {1, 2}, {2, 2}, {1, 3}, {2, 3}, {3, 2}, {1, 4}, {2, 4}, {1, 5}} {
 		l = append(l, inst{"replace", kn[0], kn[1]})
 	}
-	l = append(l, inst{"tipsR", 1, 2}, inst{"tipsR", 2, 4}, inst{"tipsR", 2, 5}, inst{"shuffleR", 0, 2}, inst{"shuffleR", 0, 4}, inst{"shuffleR", 0, 5})
+	l = append(l, inst{"shuffleT", 0, 3}, inst{"shuffleT", 0, 4}, inst{"shuffleT", 0, 5}, inst{"tipsT", 1, 3}, inst{"tipsT", 2, 4}, inst{"tipsT", 3, 5}, inst{"tipsR", 1, 2}, inst{"tipsR", 2, 4}, inst{"tipsR", 2, 5}, inst{"shuffleR", 0, 2}, inst{"shuffleR", 0, 4}, inst{"shuffleR", 0, 5})
 	maxn := 6
 	if !quick {
 		maxn = 8
+		l = append(l, inst{"tips", 6, 9}, inst{"tips", 7, 10}, inst{"tips", 5, 9}, inst{"tips", 6, 10}, inst{"tipsR", 4, 9},
+			inst{"tips", 5, 10}, inst{"sample", 6, 9}, inst{"sample", 7, 10}, inst{"shuffle", 0, 9})
 		l = append(l, inst{"sample", 1, 6}, inst{"sample", 2, 6}, inst{"sample", 2, 7}, inst{"sample", 4, 8},
 			inst{"tips", 1, 6}, inst{"tips", 3, 7}, inst{"tips", 2, 7}, inst{"tips", 4, 8}, inst{"tips", 3, 8},
 			inst{"replace", 3, 3}, inst{"replace", 2, 5}, inst{"replace", 1, 6}, inst{"replace", 3, 4}, inst{"replace", 1, 7})
@@ -1013,9 +1326,100 @@ func Run(c *core.Ctx) {
 	}
 	// 4. command-line tier
 	if c.Gotree != "" {
-		m := c.Scale(40, 1500)
+		// every branch of the sample command once (formats, errors, panics), with the run's seeds
+		for _, f := range []struct {
+			format  string
+			k       int
+			replace bool
+			n, bad  int
+			opened  bool
+		}{
+			{"newick", 2, false, 5, -1, true}, {"nexus", 2, false, 5, -1, true}, {"phyloxml", 2, false, 5, -1, true},
+			{"nexus", 3, true, 4, -1, true}, {"phyloxml", 1, true, 3, -1, true}, {"newick", 7, false, 4, -1, true},
+			{"newick", 6, true, 2, -1, true}, {"newick", 0, false, 3, -1, true}, {"newick", 0, true, 3, -1, true},
+			{"newick", 2, false, 0, -1, true}, {"newick", 2, true, 0, -1, true}, {"newick", 1, false, 4, 0, true},
+			{"newick", 1, false, 4, 2, true}, {"newick", 2, true, 4, 4, true}, {"newick", 2, false, 4, -1, false},
+			{"newick", -1, false, 4, -1, true}, {"newick", -2, true, 4, -1, true},
+		} {
+			doSampleCmd(c, f.format, f.k, f.replace, seed(), f.n, f.bad, f.opened)
+		}
+		m := c.Scale(110, 2500)
 		for i := 0; i < m; i++ {
-			switch i % 5 {
+			switch i % 10 {
+			case 9:
+				// prune: several selection options at once
+				o := treeOpts(g)
+				o.MinTips = 8
+				t, _ := g.Tree(o)
+				core.NumberEdges(t)
+				nm := t.TipNames()
+				pick := func(k int) []string {
+					p := g.R.Perm(len(nm))
+					var out []string
+					for _, q := range p[:k] {
+						out = append(out, nm[q])
+					}
+					return out
+				}
+				random := g.Intn(4) // 0 = option absent
+				var args, tipfile, comp []string
+				if g.Chance(0.6) {
+					args = pick(1 + g.Intn(2))
+				}
+				switch g.Intn(4) {
+				case 0:
+					tipfile = pick(1 + g.Intn(3))
+				case 1:
+					comp = pick(len(nm) - 1 - g.Intn(2))
+				case 2:
+					tipfile = pick(1 + g.Intn(2))
+					comp = pick(len(nm) - 1)
+				}
+				doPruneCmd(c, seed(), t, random, args, tipfile, comp)
+			case 8:
+				doUTreeCmd(c, seed(), 3+g.Intn(10), g.Chance(0.5), 1+g.Intn(4))
+			case 7:
+				var ns []*core.N
+				for q := 1 + g.Intn(3); q > 0; q-- {
+					o := treeOpts(g)
+					o.MinTips = 3
+					t, _ := g.Tree(o)
+					core.NumberEdges(t)
+					ns = append(ns, t)
+				}
+				doShufCLI(c, seed(), ns)
+			case 6:
+				// the whole sample command: formats, malformed tree, empty input, missing file, k < 0
+				format := []string{"newick", "newick", "nexus", "phyloxml"}[g.Intn(4)]
+				nn := g.Intn(9)
+				k := g.Intn(nn+3) - 0
+				bad, opened := -1, true
+				switch g.Intn(10) {
+				case 0:
+					if format == "newick" {
+						bad = g.Intn(nn + 1)
+					}
+				case 1:
+					opened = false
+				case 2:
+					k = -1 - g.Intn(2)
+				case 3:
+					nn = 0
+				}
+				if nn == 0 {
+					format = "newick"
+				}
+				doSampleCmd(c, format, k, g.Chance(0.4), seed(), nn, bad, opened)
+			case 5:
+				var ns []*core.N
+				for q := 1 + g.Intn(3); q > 0; q-- {
+					o := treeOpts(g)
+					o.MinTips = 3
+					t, _ := g.Tree(o)
+					core.NumberEdges(t)
+					ns = append(ns, t)
+				}
+				doRotCLI(c, seed(), ns)
 			case 0:
 				nn := 1 + g.Intn(10)
 				doSample(c, s, "samplecli", g.Intn(nn+3), nn, seed())
